@@ -125,6 +125,13 @@ func (sp *Spec) RunOnce(t *testing.T, tape *simrt.Tape, tier string, trace bool)
 		// harness built in racy mode (meta.json "racy": true): statement-level switches in a
 		// part of the runs, swarm style (draw 0 = off)
 		cfg.RacyMean = []int{0, 0, 4, 15, 60}[tape.Intn(5)]
+		if cfg.RacyMean > 0 {
+			// statement-level switches count as scheduling points: widen the step budget
+			if cfg.MaxSteps == 0 {
+				cfg.MaxSteps = 20000
+			}
+			cfg.MaxSteps *= 5
+		}
 	}
 	res := simrt.Execute(t, cfg, tape, func(r *simrt.Run) {
 		if resetClock == nil {
